@@ -163,6 +163,26 @@ func H_Stores() {
 	// re-open on the same store at the saved root
 	t2 := mptlib.NewTrie(db, version, t.GetRoot())
 	vp.NoPanic("C14.nopanic", func() { mptlib.CheckContent("C14.reopen", t2, ref) })
+	// the pending changes saved to another store: every entry keyed by its own hash, and the
+	// trie read back from that store alone recomputes to the saved root and reads the content
+	if saveTo := vp.Param("save_to", 0); saveTo > 0 {
+		target := mptlib.NewStore(map[int]int{1: 0, 2: 2}[saveTo], "c14-target")
+		var serr error
+		if vp.NoPanic("C14.nopanic", func() { serr = t.SaveChanges(context.Background(), target, false) }) {
+			return
+		}
+		vp.Assert("C14.saved.ok", serr == nil)
+		if vp.NoPanic("C14.nopanic", func() {
+			target.Iterate(context.TODO(), func(ctx context.Context, key util.Key, node util.Node) error {
+				vp.Assert("C14.saved.key-is-own-hash", bytes.Equal(key, node.GetHashBytes()))
+				return nil
+			})
+			mptlib.CheckContent("C14.saved-reopen", mptlib.NewTrie(target, version, t.GetRoot()), ref)
+		}) {
+			return
+		}
+		vp.Cover("C14.saved")
+	}
 	vp.Cover("C14.stores.done")
 }
 
